@@ -203,6 +203,7 @@ func main() {
 	defer cleanup()
 	globalCleanup = cleanup
 	os.Setenv("VERIF_SCRATCH", work)
+	os.Setenv("VERIF_ROOT_DIR", verif) // fixtures committed under /verif (golden databases)
 	privateModfile(work)
 
 	overlay := buildOverlay(work)
